@@ -260,6 +260,67 @@ func (c *fctx) assignSpecial(e *emitter, ind int, st *ast.AssignStmt) bool {
 		return true
 	}
 	obj := c.fi.Pkg.callee(call)
+	// _, err := rand.Read(buf): a draw from the explicit tape
+	if f, ok := obj.(*types.Func); ok && f.Pkg() != nil && f.Pkg().Path() == "crypto/rand" && f.Name() == "Read" && len(st.Lhs) == 2 && c.tapeVar != nil {
+		id, isId := ast.Unparen(call.Args[0]).(*ast.Ident)
+		if !isId {
+			c.fail(st, "rand.Read into something that is not a variable")
+		}
+		bv := c.info().Uses[id].(*types.Var)
+		c.useAbstractName("rand_Read", "(rand_Read : τ → Int → Go.M ((List UInt8) × (Option Go.Err) × τ))")
+		t := c.tmp()
+		tp := c.nameOf(c.tapeVar)
+		e.add(ind, fmt.Sprintf("let %s ← rand_Read %s (Go.len %s)", t, tp, c.nameOf(bv)))
+		e.add(ind, fmt.Sprintf("%s := %s.2.2", tp, t))
+		e.add(ind, fmt.Sprintf("%s := Go.writeAt %s (0 : Int) %s.1", c.nameOf(bv), c.nameOf(bv), t))
+		c.assignTo(e, ind, st.Lhs[0], "(Go.len "+t+".1)", define)
+		c.assignTo(e, ind, st.Lhs[1], t+".2.1", define)
+		return true
+	}
+	// an abstract callee that takes and hands back state
+	if f, ok := obj.(*types.Func); ok && c.isAbstract(f) && c.spec != nil && len(c.spec.threaded[f.Pkg().Name()+"."+f.Name()]) > 0 {
+		tv := c.threadedVars(call)
+		fsig := f.Type().(*types.Signature)
+		var ps, rs, args []string
+		if sel, ok := ast.Unparen(call.Fun).(*ast.SelectorExpr); ok && fsig.Recv() != nil {
+			ps = append(ps, c.leanType(st, fsig.Recv().Type()))
+			args = append(args, c.expr(sel.X))
+		}
+		for i := 0; i < fsig.Params().Len(); i++ {
+			ps = append(ps, c.leanType(st, fsig.Params().At(i).Type()))
+			args = append(args, c.expr(call.Args[i]))
+		}
+		for i := 0; i < fsig.Results().Len(); i++ {
+			rs = append(rs, c.leanType(st, fsig.Results().At(i).Type()))
+		}
+		for _, v := range tv {
+			vt := c.leanType(st, v.Type())
+			if v == c.tapeVar {
+				ps = append(ps, vt)
+				args = append(args, c.nameOf(v))
+			}
+			rs = append(rs, vt)
+		}
+		an := absName(f)
+		c.useAbstractName(an, fmt.Sprintf("(%s : %s → Go.M %s)", an, strings.Join(ps, " → "), tupleType(rs)))
+		t := c.tmp()
+		e.add(ind, fmt.Sprintf("let %s ← %s %s", t, an, strings.Join(args, " ")))
+		n := len(st.Lhs) + len(tv)
+		proj := func(i int) string {
+			p := t + strings.Repeat(".2", i)
+			if i < n-1 {
+				p += ".1"
+			}
+			return p
+		}
+		for j, v := range tv {
+			e.add(ind, fmt.Sprintf("%s := %s", c.nameOf(v), proj(len(st.Lhs)+j)))
+		}
+		for i, l := range st.Lhs {
+			c.assignTo(e, ind, l, proj(i), define)
+		}
+		return true
+	}
 	// n, err := io.ReadFull(src, view)
 	if f, ok := obj.(*types.Func); ok && f.Pkg() != nil && f.Pkg().Path() == "io" && f.Name() == "ReadFull" && len(st.Lhs) == 2 {
 		dv, ok := c.viewOf(call.Args[1])
